@@ -173,7 +173,7 @@ def err_trap_direct(ctx):
         feats = ("cs", "ev", "nobang") if failing_handler else ("opts", "cs", "ev", "nobang")
         g = flowgen.Gen(random.Random(rng.getrandbits(48)), feats, budget=rng.choice([4, 6, 10]))
         p = g.program(rng.choice([2, 3]), prefix=([("O", "e", True)] if (rng.random() < 0.3 and not failing_handler) else None))
-        txt = flowgen.render(p, fd3=True)
+        txt = flowgen.render(p, fd3=True, deco=(rng.getrandbits(32) if i % 2 == 0 else None), deco_nl=False)
         if "! " in txt:
             continue
         lines = txt.rstrip("\n").split("\n")
